@@ -1124,3 +1124,106 @@ Lemma boundary_examples :
   /\ compile code16 no_texts (mkf 0 BOther :: plain_msgs 2 1) 0 = None
   /\ compile code16 no_texts [] 0 = None.
 Proof. conjs; vm_compute; reflexivity. Qed.
+
+(* ------------------------------------------------------------------ two producers, concretely *)
+Lemma lastn_frames_suffix k (x : log) :
+  exists pre, x = pre ++ lastn_frames k x /\ ((length x <= k)%nat -> pre = []).
+Proof.
+  unfold lastn_frames. exists (rev (skipn k (rev x))). split.
+  - rewrite <- rev_app_distr, firstn_skipn, rev_involutive. reflexivity.
+  - intros H. rewrite skipn_all2; [reflexivity|]. rewrite rev_length. exact H.
+Qed.
+
+Lemma cut_scan_some_anchor a evs r : cut_scan a evs = Some r -> existsb (is_anchor a) evs = true.
+Proof.
+  induction evs as [|f e IH]; [discriminate|]. cbn [cut_scan existsb]. fold (is_anchor a f).
+  destruct (is_anchor a f); [reflexivity|]. cbn [orb]. exact IH.
+Qed.
+
+Theorem tail_path_agrees P texts k l a evs from :
+  incr l -> wf_refs l = true ->
+  tail_path (p_limit P) k l a = Some (evs, from) ->
+  Some (compile_with P texts evs (filter is_ckpt l) from a) = compile P texts l a.
+Proof.
+  intros S W H. unfold tail_path in H. cbv zeta in H.
+  destruct (tail_cut (mr_tail k l) (head_seq l) a) as [fr|] eqn:Tc; [|discriminate].
+  destruct (mr_tail_complete k l || (p_limit P <=? count_msgs_upto fr (mr_tail k l))%nat) eqn:Acc; [|discriminate].
+  inversion H; subst evs from. clear H.
+  destruct (lastn_frames_suffix k (filter mr_keep l)) as (pre & Hs & Hc). fold (mr_tail k l) in Hs.
+  assert (Ea : existsb (is_anchor a) (mr_tail k l) = true).
+  { unfold tail_cut in Tc. destruct (cut_scan a (mr_tail k l)) eqn:Cs; [|discriminate]. eapply cut_scan_some_anchor; exact Cs. }
+  assert (C : cut_point l a = Some fr).
+  { rewrite <- (tail_cut_agrees mr_keep l pre (mr_tail k l) a S (fun f H => H) Hs Ea). exact Tc. }
+  apply (all_paths_agree P texts mr_keep l a fr (mr_tail k l) S W C).
+  split; [auto|]. exists l, pre. repeat split; [now left|exact Hs|].
+  apply orb_true_iff in Acc. destruct Acc as [Cm|Ct].
+  - left. apply Hc. unfold mr_tail_complete in Cm. apply Nat.leb_le in Cm. exact Cm.
+  - right. apply Nat.leb_le in Ct. exact Ct.
+Qed.
+
+(* the window loop keeps a prefix (in scan order) of the frames at or before the cut, all of them or up to the
+   limit-th message *)
+Lemma window_rev_spec from limit : forall rl found acc,
+  exists taken rest,
+    filter (fun f => fseq f <=? from) rl = taken ++ rest
+    /\ window_rev from rl limit found acc = rev taken ++ acc
+    /\ (rest = [] \/ (limit <= found + length (filter is_msg taken))%nat).
+Proof.
+  induction rl as [|f r IH]; intros found acc.
+  - exists [], []. split; [reflexivity|split; [reflexivity|now left]].
+  - cbn [window_rev filter]. destruct (from <? fseq f) eqn:C.
+    + replace (fseq f <=? from) with false by lia. apply IH.
+    + replace (fseq f <=? from) with true by lia. destruct (is_msg f) eqn:M.
+      * destruct (limit <=? S found)%nat eqn:L.
+        -- exists [f], (filter (fun g => fseq g <=? from) r). split; [reflexivity|split; [reflexivity|]].
+           right. cbn [filter length]. rewrite M. cbn [length]. apply Nat.leb_le in L. lia.
+        -- destruct (IH (S found) (f :: acc)) as (tk & rs & E & Wn & Ct).
+           exists (f :: tk), rs. split; [|split].
+           ++ cbn [app]. now rewrite E.
+           ++ rewrite Wn. cbn [rev]. now rewrite <- app_assoc.
+           ++ destruct Ct as [Ct|Ct]; [now left|right]. cbn [filter]. rewrite M. cbn [length]. lia.
+      * destruct (IH found (f :: acc)) as (tk & rs & E & Wn & Ct).
+        exists (f :: tk), rs. split; [|split].
+        -- cbn [app]. now rewrite E.
+        -- rewrite Wn. cbn [rev]. now rewrite <- app_assoc.
+        -- destruct Ct as [Ct|Ct]; [now left|right]. cbn [filter]. rewrite M. exact Ct.
+Qed.
+
+Lemma count_msgs_upto_all from x :
+  (forall f, In f x -> fseq f <=? from = true) -> count_msgs_upto from x = length (filter is_msg x).
+Proof.
+  intros H. unfold count_msgs_upto. f_equal. apply filter_ext_in. intros f F. now rewrite (H f F).
+Qed.
+
+Lemma filter_is_msg_rev (x : log) : length (filter is_msg (rev x)) = length (filter is_msg x).
+Proof. now rewrite filter_rev', rev_length. Qed.
+
+Theorem window_path_agrees P texts l a from :
+  incr l -> wf_refs l = true -> cut_point l a = Some from ->
+  Some (compile_with P texts (mr_window (p_limit P) l from) (filter is_ckpt l) from a) = compile P texts l a.
+Proof.
+  intros S W C. apply (all_paths_agree P texts mr_keep l a from _ S W C).
+  split; [auto|]. unfold mr_window.
+  destruct (window_rev_spec from (p_limit P) (rev (filter mr_keep l)) 0 []) as (tk & rs & E & Wn & Ct).
+  rewrite Wn, app_nil_r. exists (upto from l), (rev rs). repeat split; [now right| |].
+  - assert (Ef : filter mr_keep (upto from l) = rev (filter (fun f => fseq f <=? from) (rev (filter mr_keep l)))).
+    { rewrite filter_rev', rev_involutive. unfold upto.
+      clear. induction l as [|f r IH]; [reflexivity|]. cbn [filter].
+      destruct (fseq f <=? from) eqn:A, (mr_keep f) eqn:B; cbn [filter]; rewrite ?A, ?B; rewrite ?IH; reflexivity. }
+    rewrite Ef, E, rev_app_distr. reflexivity.
+  - destruct Ct as [->|Ct]; [now left|right].
+    rewrite count_msgs_upto_all.
+    + rewrite filter_is_msg_rev. cbn in Ct. exact Ct.
+    + intros f F. apply in_rev in F.
+      assert (In f (filter (fun g => fseq g <=? from) (rev (filter mr_keep l)))) by (rewrite E; apply in_or_app; now left).
+      apply filter_In in H. tauto.
+Qed.
+
+(* both producers on the example thread: the 17-message tail is accepted, a 10-frame tail is not; the window holds
+   exactly 16 messages *)
+Lemma producers_example :
+  option_map snd (tail_path 16 34 ex_log 58) = Some 60
+  /\ tail_path 16 10 ex_log 58 = None
+  /\ count_msgs_upto 60 (mr_window 16 ex_log 60) = 16%nat
+  /\ (length (mr_window 16 ex_log 60) < length (filter mr_keep ex_log))%nat.
+Proof. conjs; vm_compute; try reflexivity. lia. Qed.
